@@ -99,6 +99,10 @@ func (fv *FV) stmt(e *Env, s ast.Stmt, label string) {
 			fv.storeLV(e, lv, fv.unknown(lv.typ, "incdec"))
 		}
 	case *ast.ReturnStmt:
+		if fv.retSeen == nil {
+			fv.retSeen = map[token.Pos]bool{}
+		}
+		fv.retSeen[s.Pos()] = true
 		fv.ret(e, s)
 	case *ast.IfStmt:
 		if s.Init != nil {
